@@ -4,8 +4,10 @@ Decided by spec/Edits.tla: (1) TLC enumerates the document space (0..N existing 
 without `;`, comment kinds, blank lines, an import that already names another class of the exporting module,
 1–2 exporters, four concrete layouts) in spec/EditsGen.tla, checks the specification's own theorems on it
 and prints every case with its concrete text; (2) every case is given to the real language server
-(`rewrite::code_actions` at the unresolved-class error, `completion::auto_complete` at the end of the class
-name) by `vh edits-run`, which records the proposed edits and what the real parser/checker say before and
+(`rewrite::code_actions` and `completion::auto_complete` at every place where the class name is written in an
+expression: where it is unresolved AND where it is bound already -- the space has documents that import the class from
+one of two or three modules exporting a class of that name, at any position among the imports, and documents that
+declare it themselves) by `vh edits-run`, which records the proposed edits and what the real parser/checker say before and
 after applying them; (3) the same after edit histories: spec/EditsHist.tla models the workspace side (the modules that
 may export the class are updated -- created, edited so that they stop / start exporting it, broken --, REMOVED and
 RENAMED) and says what the live workspace and the live exporters are afterwards; spec/EditsHistGen.tla enumerates
@@ -13,7 +15,9 @@ every history of up to N operations from every initial workspace, the driver rep
 (`ServerState::update / remove / rename_module`) under a document of the space, plus seeded random longer histories
 that also edit the document and the other modules; (4) spec/EditsTrace.tla judges every record -- a proposal is
 always judged on a FRESH server started from the live workspace (as EditsHist.tla computes it, text for text) with
-the edited document, never on the running server's own diagnostics: the verdict conditions are the clauses of
+the edited document, never on the running server's own diagnostics; "otherwise the same program" is judged on the
+printed toplevels AND semantically (EditsTrace!NoNewDiagnostic: no diagnostic of any kind that was not there before,
+EditsTrace!BoundNamesStayBound: every class name bound before is bound to the same module after, last import wins): the verdict conditions are the clauses of
 the property evaluated by TLC on the logged observations; disagreement between Edits.tla's ApplyEdits /
 transcribed fix shapes / import-section reader and the harness / implementation is MODEL-DRIFT only."""
 import json, os, random, re, time, threading
@@ -91,6 +95,7 @@ def hist_case(hid, target, hinit, hops, init_extra, hist, ws0, ws):
     return {"id": f"{hid}:{case_id(target)}", "src": "history", "text": target["text"], "mods": dict(static, **live),
             "cls": target["cls"], "exporters": sorted(m for m, kt in ws.items() if kt[0] == "foo"),
             "last_semi": target["last_semi"], "already_named": target.get("already_named", False),
+            "bound_to": target.get("bound_to", ""),
             "layout": target["doc"]["layout"], "init": init, "hist": hist,
             "hinit": hinit, "hops": hops, "cand_mods": live}
 
@@ -258,12 +263,16 @@ def assess(cases, tag, stats):
     for r, v in zip(records, verdicts):
         if v["skipped"]:
             stats["skipped_" + v["skipped"]] = stats.get("skipped_" + v["skipped"], 0) + 1
+            if v["skipped"] == "nothing-proposed":
+                k = "unedited_items_at_" + r.get("site_kind", "unresolved") + "_occurrences"
+                stats[k] = stats.get(k, 0) + 1
             if v["skipped"] == "panic":
                 log(f"NOTE: request panicked ({r.get('where')}): {r.get('panic')}  case {r['id']}")
             continue
         proposals_per_case[r["id"]] = proposals_per_case.get(r["id"], 0) + 1
         stats["judged"] = stats.get("judged", 0) + 1
         stats["kind_" + r["kind"]] = stats.get("kind_" + r["kind"], 0) + 1
+        stats["judged_at_" + r.get("site_kind", "unresolved")] = stats.get("judged_at_" + r.get("site_kind", "unresolved"), 0) + 1
         stats["shape_" + v["shape"]] = stats.get("shape_" + v["shape"], 0) + 1
         for dn in v["drift"]:
             stats["drift"][dn] = stats["drift"].get(dn, 0) + 1
@@ -275,7 +284,9 @@ def assess(cases, tag, stats):
             failed.append((by_id[r["id"]], r, v))
     # every case must have produced at least one proposal of each kind, else the check would be vacuous there
     # (a workspace in which no live module exports the class has nothing to propose)
-    silent = [c["id"] for c in cases if proposals_per_case.get(c["id"], 0) < 2 and not c.get("already_named") and c["exporters"]]
+    # (nor has a document that binds the class already: imported from an exporter, or declared by itself)
+    silent = [c["id"] for c in cases if proposals_per_case.get(c["id"], 0) < 2 and not c.get("already_named") and c["exporters"]
+              and not c.get("bound_to")]
     unasked = [c["id"] for c in cases if proposals_per_case.get(c["id"], 0) > 0 and not c["exporters"]]
     stats["cases_with_proposals_but_no_live_exporter"] = stats.get("cases_with_proposals_but_no_live_exporter", 0) + len(unasked)
     stats["cases_without_both_proposals"] = stats.get("cases_without_both_proposals", 0) + len(silent)
@@ -296,6 +307,8 @@ def report(failed, what):
                     "text": r["text"], "edits": r["edits"], "applied_text": r.get("applied_text"),
                     "apply_error": r.get("apply_error"), "syntax_errors_after": r.get("syn_after"),
                     "unresolved_after": r.get("unres_after"), "imports_after": r.get("imports_after"),
+                    "requested_where_the_class_is": r.get("site_kind"), "diagnostics_before": r.get("diag_before"),
+                    "diagnostics_after": r.get("diag_after"),
                     "edit_shape": v["shape"], "from": what}
         path = save_replay(PID, "edits", replay_case_of(c),
                            "applying the proposed edits: ranges inside the document and disjoint, no new syntax error, "
@@ -352,7 +365,11 @@ def run(tier):
     # vacuity: the features the quantifier of the property names must all occur
     feat = {"imports_0": 0, "imports_1": 0, "imports_2": 0, "imports_3": 0, "last_import_without_semicolon": 0,
             "comment_line": 0, "comment_block": 0, "blank_line": 0, "imports_exporting_module_already": 0,
-            "two_exporters": 0, "class_already_named_in_import_of_non_exporter": 0, "imports_nested_module": 0,
+            "two_exporters": 0, "three_exporters": 0, "class_bound_by_import_of_an_exporter": 0,
+            "class_bound_by_import_of_an_exporter_first_of_several": 0, "class_bound_by_import_of_an_exporter_last_of_several": 0,
+            "class_bound_by_import_next_to_another_class": 0, "class_bound_by_local_declaration": 0,
+            "class_bound_while_another_module_exports_it": 0,
+            "class_already_named_in_import_of_non_exporter": 0, "imports_nested_module": 0,
             "last_import_nested_module_without_semicolon": 0, "nested_exporter": 0}
     for c in cases:
         imps = c["doc"]["imports"]
@@ -363,13 +380,24 @@ def run(tier):
         feat["blank_line"] += any(i["blank"] for i in imps)
         feat["imports_exporting_module_already"] += any(i["mod"] in c["exporters"] for i in imps)
         feat["two_exporters"] += len(c["exporters"]) == 2
+        feat["three_exporters"] += len(c["exporters"]) == 3
+        bound_imp = [k for k, i in enumerate(imps) if c["cls"] in i["names"] and i["mod"] in c["exporters"]]
+        feat["class_bound_by_import_of_an_exporter"] += bool(bound_imp)
+        feat["class_bound_by_import_of_an_exporter_first_of_several"] += bool(bound_imp) and len(imps) > 1 and bound_imp[0] == 0
+        feat["class_bound_by_import_of_an_exporter_last_of_several"] += bool(bound_imp) and len(imps) > 1 and bound_imp[-1] == len(imps) - 1
+        feat["class_bound_by_import_next_to_another_class"] += any(len(imps[k]["names"]) > 1 for k in bound_imp)
+        feat["class_bound_by_local_declaration"] += c["bound_to"] == "Doc"
+        feat["class_bound_while_another_module_exports_it"] += bool(c["bound_to"]) and any(m != c["bound_to"] for m in c["exporters"])
         feat["class_already_named_in_import_of_non_exporter"] += c["already_named"]
         feat["imports_nested_module"] += any("." in i["mod"] for i in imps)
         feat["last_import_nested_module_without_semicolon"] += c["last_dotted"] and not c["last_semi"]
         feat["nested_exporter"] += any("." in m for m in c["exporters"])
         feat["layout_" + c["layout"]] = feat.get("layout_" + c["layout"], 0) + 1
     need = ["imports_0", "imports_1", "imports_2", "comment_line", "comment_block", "blank_line",
-            "imports_exporting_module_already", "two_exporters", "class_already_named_in_import_of_non_exporter",
+            "imports_exporting_module_already", "two_exporters", "three_exporters", "class_bound_by_import_of_an_exporter",
+            "class_bound_by_import_of_an_exporter_first_of_several", "class_bound_by_import_of_an_exporter_last_of_several",
+            "class_bound_by_import_next_to_another_class", "class_bound_by_local_declaration",
+            "class_bound_while_another_module_exports_it", "class_already_named_in_import_of_non_exporter",
             "imports_nested_module", "nested_exporter"] + \
            ([] if kfs else ["last_import_without_semicolon", "last_import_nested_module_without_semicolon"])
     if tier != "quick":
@@ -439,6 +467,10 @@ def run(tier):
         "server_updates_in_histories": stats.get("updates", 0),
         "proposals_judged": stats["judged"], "quick_fixes": stats.get("kind_action", 0),
         "completion_edits": stats.get("kind_completion", 0),
+        "proposals_judged_at_unresolved_occurrences": stats.get("judged_at_unresolved", 0),
+        "proposals_judged_at_bound_occurrences": stats.get("judged_at_bound", 0),
+        "completion_items_without_edits_at_bound_occurrences": stats.get("unedited_items_at_bound_occurrences", 0),
+        "completion_items_without_edits_at_unresolved_occurrences": stats.get("unedited_items_at_unresolved_occurrences", 0),
         "edit_shapes": {k[6:]: v for k, v in stats.items() if k.startswith("shape_")},
         "document_features": feat,
         "proposals_that_only_move_a_comment_to_another_node": stats.get("comments_moved_only", 0),
@@ -458,6 +490,10 @@ def run(tier):
                     "a fresh ServerState on the edited text and the LIVE workspace (EditsHist!Replay of the history: removed / renamed-away modules are gone) "
                     "is 'the document after applying the edits' as the property means it; the running server's own diagnostics are never the verdict",
                     "workspace histories operate on the candidate exporters A, E and the free name Z (update to exporting / not exporting / broken, remove, rename)",
+                    "'otherwise the same program' includes: the fresh server reports no diagnostic about the edited document that it did not report "
+                    "before (compared without positions, as bags; every class `Foo` of the workspace has the member the document uses, so resolving "
+                    "the class cannot uncover new errors), and every class name bound before is bound to the same module after (last import wins)",
+                    "proposals are requested at every place where the class name is written in an expression, unresolved or bound",
                     "toplevels are compared through the printer (pretty_print_toplevel) after blanking out comments: the same program does not speak of comments; proposals that only move a comment to another node are counted",
                     "TLC 1.8.0 and the CommunityModules Json/IOUtils/SequencesExt overrides are correct"],
                    time.time() - t0, groups)
